@@ -1029,8 +1029,15 @@ def canon_call_vs_execute(cf, v: View):
     return cf
 
 
-def project(v: View, *, keep, strip_place=True, strip_operation=False, drop_breaker=False):
+def project(v: View, *, keep, strip_place=True, strip_operation=False, drop_breaker=False, roles=False):
+    """`roles`: instead of dropping the placement of handler / before_sleep / sleeper events, say whether the callback that was asked
+    is the one that governs this call ("governing") or one that should have been overridden - comparable across entry points whose
+    placements differ by construction (the decorator has construction-time placement only)."""
     out = []
+
+    def role(name, place):
+        return ("governing" if place == v.winner(name) else "overridden",) if roles else ()
+
     for ev in v.trace:
         k = ev[0]
         if k not in keep:
@@ -1046,9 +1053,9 @@ def project(v: View, *, keep, strip_place=True, strip_operation=False, drop_brea
         elif k == "strategy":
             out.append((k,) + tuple(fnum(x) if isinstance(x, float) else x for x in ev[1:10]))
         elif k in ("handler", "before_sleep"):
-            out.append((k,) + (() if strip_place else (ev[1],)) + tuple(fnum(x) if isinstance(x, float) else x for x in ev[2:]))
+            out.append((k,) + (() if strip_place else (ev[1],)) + role(k, ev[1]) + tuple(fnum(x) if isinstance(x, float) else x for x in ev[2:]))
         elif k == "sleep":
-            out.append(("sleep", fnum(ev[2]), ev[3]))
+            out.append(("sleep", fnum(ev[2]), ev[3]) + role("sleeper", ev[1]))
         elif k == "dsleep":
             out.append(("sleep", fnum(ev[1]), ev[2]))
         elif k in ("astart", "aend"):
